@@ -93,7 +93,7 @@ Step ==
                     /\ cell' = IF cfg.outp = "file" THEN "full" ELSE cell
                     /\ UNCHANGED <<exit, errline, named>>
                [] s = "name_sender" ->
-                    /\ named' = IF cfg.sender = "absent" THEN "unknown"
+                    /\ named' = IF cfg.sender \in {"absent", "badsum"} THEN "unknown"
                                 ELSE IF Variant = "FirstEntryIsSender" /\ cfg.sender = "last" THEN "wrong_name" ELSE "name"
                     /\ UNCHANGED <<cell, exit, errline>>
                [] s = "done" -> exit' = 0 /\ UNCHANGED <<cell, errline, named>>
